@@ -460,8 +460,13 @@ func (t *wal) Clear() error {
 	t.Lock()
 	defer t.Unlock()
 
+	return t.clearWithoutLock(t.currentSegment.Close())
+}
+
+// clearWithoutLock removes all the segments, once the current one was closed.
+func (t *wal) clearWithoutLock(closeCurrentSegmentErr error) error {
 	err := multierr.Combine(
-		t.currentSegment.Close(),
+		closeCurrentSegmentErr,
 		t.readOnlySegments.Close(),
 		os.RemoveAll(t.walPath),
 	)
@@ -536,8 +541,8 @@ func (t *wal) TruncateLog(lastSafeOffset int64) (int64, error) { //nolint:revive
 			case err != nil:
 				return InvalidOffset, err
 			case segment == nil:
-				// There are no segments left
-				if err := t.Clear(); err != nil {
+				// There are no segments left, and the current one was closed and deleted above
+				if err := t.clearWithoutLock(nil); err != nil {
 					return InvalidOffset, err
 				}
 				return t.LastOffset(), nil
